@@ -153,7 +153,8 @@ def run(tier, seed):
         d = json.loads(p.stdout.strip().splitlines()[-1])
         rep.evaluations += d["triples"] + d["pairs"] + d["roundtrips"]
         rep.coverage.update(value_triples=d["triples"], value_pairs=d["pairs"], kernel_vs_value_pairs=d["kernel_pairs"],
-                            print_parse_roundtrips=d["roundtrips"], pool_sizes=d["pool_sizes"])
+                            print_parse_roundtrips=d["roundtrips"], pool_sizes=d["pool_sizes"],
+                            literal_texts_accepted_as_values=d.get("literal_texts_accepted"), literal_texts_rejected=d.get("literal_texts_rejected"))
         for v in d["violations"]:
             rep.add_violation(Violation("value:" + v["signature"], v["what"], dict(value_leg=True, seed=seed, extra=extra)))
         ntypes = len(d["pool_sizes"])
